@@ -221,8 +221,8 @@ def simulate(I, impl, W, reqs, init, tm, window):
       d = dict(init)
       th.mem.write_mem(lo, bytes(d.get(a, 0) for a in range(lo, hi)))
     th.apply(pm.DefaultPassGroup())
+    I.obs = obs                       # observe from the very first cycle (with latency 0 a request can be serviced in the reset epilogue)
     th.sim_reset()
-    I.obs = obs
     total = sum(len(r) for r in reqs)
     idle, last, cycles = 0, -1, 0
     cap = 400 + 60 * total
@@ -289,7 +289,7 @@ def gen_reqs(rng, impl, W, nports, nreq, base, span):
 
 def gen_timing(rng, impl, nports, latency=None, stall=None):
   dl = lambda hi: [rng.choice([0, 0, 0, 1, 2, rng.randrange(0, hi)]) for _ in range(nports)]
-  if latency is None: latency = rng.choice([1, 2, 3, 4, 5]) if impl == 'CL' else rng.choice([0, 1, 2, 3, 4])
+  if latency is None: latency = rng.choice([0, 1, 2, 3, 4, 5]) if impl == 'CL' else rng.choice([0, 1, 2, 3, 4])
   if stall is None: stall = rng.choice([0, 0.3, 0.7])
   return {'latency': latency, 'stall': stall, 'seed': rng.getrandbits(30),
           'src_init': dl(6), 'src_intv': dl(5), 'sink_init': dl(8), 'sink_intv': dl(6)}
@@ -411,7 +411,7 @@ def run(ctx):
 
   # systematic sweep of the timing grid, then random fill
   grid = [(impl, np, lat, st) for impl in ('CL', 'RTL') for np in (1, 2, 3)
-          for lat in ((1, 2, 3, 4, 5) if impl == 'CL' else (0, 1, 2, 4)) for st in (0, 0.3, 0.7)]
+          for lat in ((0, 1, 2, 3, 4, 5) if impl == 'CL' else (0, 1, 2, 4)) for st in (0, 0.3, 0.7)]
   rounds = 1 if quick else 10
   plan = grid * rounds
   extra = 120 if quick else 2500
